@@ -1754,6 +1754,12 @@ class Parallel(Logger):
     def _wait_retrieval(self):
         """Return True if we need to continue retrieving some tasks."""
 
+        # If an error has been registered (it can come from the input iterable
+        # itself, possibly before any task was dispatched), enter the retrieval
+        # loop so that it is raised in the caller instead of being dropped.
+        if self._aborting:
+            return True
+
         # If the input load is still being iterated over, it means that tasks
         # are still on the dispatch waitlist and their results will need to
         # be retrieved later on.
